@@ -40,7 +40,12 @@ def gen_case(rng):
     else:
         ex = (rng.choice(["abort", "abort", "abort_base", "abort_genexit"]),)
         ops = ops[: rng.randint(0, len(ops))]
-    return {"init": init, "ops": ops, "exit": ex, "ctx": rng.choice(["plain", "plain", "handler"])}
+    layered = rng.random() < 0.25
+    if layered:
+        # ScratchDB.copy() merges the wrapped mapping, which needs a real mapping below (keys()); not part of what a nested
+        # batch uses
+        ops = [("contains", o[1] if len(o) > 1 else b"a") if o[0] == "copy" else o for o in ops]
+    return {"init": init, "ops": ops, "exit": ex, "ctx": rng.choice(["plain", "plain", "handler"]), "layered": layered}
 
 
 def run_impl(case):
@@ -48,12 +53,30 @@ def run_impl(case):
 
 
 def run_impl_(case):
-    from trie.utils.db import ScratchDB
-    wrapped = C.FailingDict(case["init"])
+    from trie.utils.db import ScratchDB, DELETED
+    base = C.FailingDict(case["init"])
+    # layered: the wrapped database is itself a ScratchDB (what a squash_changes block opened on a batch trie wraps); its
+    # contents are observed as its commit view (its own buffer applied to the dict below it), which makes the expected
+    # observations the same as for a plain dict
+    layered = bool(case.get("layered"))
+    wrapped = ScratchDB(base) if layered else base
+
+    def view():
+        d = dict(base)
+        if layered:
+            for k, v in wrapped.cache.items():
+                if v is DELETED:
+                    d.pop(k, None)
+                else:
+                    d[k] = v
+        return sorted([k, v] for k, v in d.items())
+
     s = ScratchDB(wrapped)
     outs = []
     before_exit = None
     writes_open = None
+    exit_exc = None
+
     def block():
         nonlocal before_exit, writes_open
         with s.batch_commit(do_deletes=(case["exit"][0] == "commit" and case["exit"][1])):
@@ -73,8 +96,8 @@ def run_impl_(case):
                         outs.append(sorted([k, v] for k, v in s.copy().items()))
                 except KeyError as e:
                     outs.append(C.exc_obs(e))
-            before_exit = sorted([k, v] for k, v in wrapped.items())
-            writes_open = wrapped.writes
+            before_exit = view()
+            writes_open = base.writes + (len(wrapped.cache) if layered else 0)
             if case["exit"][0] == "abort":
                 raise C.Abort()
             if case["exit"][0] == "abort_base":
@@ -89,9 +112,13 @@ def run_impl_(case):
             g.close()
     except (C.Abort, C.AbortBase):
         pass
-    after = sorted([k, v] for k, v in wrapped.items())
+    except Exception as e:          # leaving the block raised something of the library's own
+        exit_exc = f"{type(e).__name__}: {e}"
+    after = view()
+    if layered and dict(base) != dict(case["init"]):
+        after = [[b"<the dict below the wrapped ScratchDB was written>", b""]] + after
     return {"outs": outs, "before_exit": before_exit, "after": after, "cache_len": len(s.cache),
-            "writes_open": writes_open}
+            "writes_open": writes_open, "exit_exc": exit_exc}
 
 
 def obs_of(I):
@@ -130,6 +157,8 @@ def spec_check(case, I):
                 else:
                     m[k] = a
             exp.append(sorted([k, v] for k, v in m.items()))
+    if I.get("exit_exc"):
+        return "leaving the batch_commit block raised " + I["exit_exc"]
     if I["outs"] != exp:
         return "reads inside the batch differ from latest-buffered-write / read-through"
     if I["writes_open"] != 0 or I["before_exit"] != sorted([k, v] for k, v in init.items()):
@@ -191,6 +220,10 @@ def corpus():
         {"init": {b"a": b"v1", b"k": b"v2"}, "ops": [("set", b"a", b"v2"), ("del", b"k"), ("set", b"ab", b"")], "exit": ("commit", True), "ctx": "handler"},
         {"init": {b"a": b"v1"}, "ops": [("set", b"a", b"v2"), ("del", b"a")], "exit": ("commit", False), "ctx": "handler"},
         {"init": {b"a": b"v1"}, "ops": [("set", b"ab", b"v2"), ("del", b"a")], "exit": ("abort",), "ctx": "handler"},
+        # the wrapped database is itself a ScratchDB (D4: deletes must be pushed into it without pop())
+        {"init": {b"a": b"v1", b"k": b"v2"}, "ops": [("set", b"a", b"v2"), ("del", b"k"), ("set", b"ab", b"x"), ("del", b"zz")], "exit": ("commit", True), "layered": True},
+        {"init": {b"a": b"v1", b"k": b"v2"}, "ops": [("set", b"a", b"v2"), ("del", b"k")], "exit": ("commit", False), "layered": True},
+        {"init": {b"a": b"v1", b"k": b"v2"}, "ops": [("set", b"a", b"v2"), ("del", b"k")], "exit": ("abort",), "layered": True},
         # left by an exception that is not an `Exception` subclass / by GeneratorExit
         {"init": {b"a": b"v1", b"k": b"v2"}, "ops": [("set", b"a", b"v2"), ("del", b"k"), ("set", b"ab", b"x")], "exit": ("abort_base",)},
         {"init": {b"a": b"v1", b"k": b"v2"}, "ops": [("set", b"a", b"v2"), ("del", b"k"), ("set", b"ab", b"x")], "exit": ("abort_genexit",)},
@@ -209,6 +242,7 @@ def check(tier, seed):
         R.evaluations += 1
         R.count("exit_" + case["exit"][0] + ("_dd" if case["exit"][0] == "commit" and case["exit"][1] else ""))
         R.count("ctx_" + case.get("ctx", "plain"))
+        R.count("wrapped_is_scratchdb_" + str(int(bool(case.get("layered")))))
         for o in case["ops"]:
             R.count("op_" + o[0])
         if nontrivial(case):
